@@ -102,6 +102,66 @@ theorem zip_lenGet (Is : List (Iterable α)) (ls : List (List α)) (hne : Is ≠
   rw [← e]
   exact zip_get_column Is ls (h.imp fun _ _ x => x.get) g hg i hall
 
+theorem zipLists_nil_of_mem : ∀ (ls : List (List α)), (∃ l ∈ ls, l = []) → zipLists ls = []
+  | [], h => rfl
+  | [l], h => by
+    obtain ⟨x, hx, rfl⟩ := h
+    simp only [List.mem_singleton] at hx; subst hx; rfl
+  | l :: l' :: ls, h => by
+    obtain ⟨x, hx, rfl⟩ := h
+    simp only [zipLists]
+    rcases List.mem_cons.mp hx with e | hx'
+    · subst e; simp
+    · rw [zipLists_nil_of_mem (l' :: ls) ⟨[], hx', rfl⟩]; simp
+
+/-- Zip_Iter_Last over inputs one of which is EMPTY: that input answers Terminal, so does the Zip -/
+theorem zipStep_last_term : ∀ (Is : List (Iterable α)) (ls : List (List α)), All₂ (fun I l => BwdAs I l) Is ls →
+    (∃ l ∈ ls, l = []) → ∀ ss : ZipSt Is, (zipStep (fun I => I.last) Is ss).2 = .term := by
+  intro Is ls h
+  induction h with
+  | nil => intro hemp; obtain ⟨_, hx, _⟩ := hemp; simp at hx
+  | @cons I l Is' ls' hI _ ih =>
+    intro hemp ss
+    obtain ⟨s, ss'⟩ := ss
+    rw [zipStep_cons]
+    have hrun := hI s
+    cases l with
+    | nil =>
+      have h0 : (I.last s).2 = .term := by simpa using hrun.inv_nil
+      rcases hl : I.last s with ⟨s', x⟩
+      rw [hl] at h0; simp only at h0; subst h0; rfl
+    | cons a t =>
+      have hemp' : ∃ l ∈ ls', l = [] := by
+        obtain ⟨x, hx, rfl⟩ := hemp
+        rcases List.mem_cons.mp hx with e | hx'
+        · simp at e
+        · exact ⟨[], hx', rfl⟩
+      have hrest := ih hemp' ss'
+      obtain ⟨b, u, hb⟩ : ∃ b u, (a :: t).reverse = b :: u := by
+        cases hr : (a :: t).reverse with
+        | nil => simp at hr
+        | cons b u => exact ⟨b, u, rfl⟩
+      rw [hb] at hrun
+      obtain ⟨h1, _⟩ := hrun.inv_cons
+      rcases hl : I.last s with ⟨s', x⟩
+      rw [hl] at h1; simp only at h1; subst h1
+      rcases hr : zipStep (fun I => I.last) Is' ss' with ⟨ss'', y⟩
+      rw [hr] at hrest; simp only at hrest; subst hrest
+      rfl
+
+/-- **Zip backward, one input empty**: the zipped sequence is empty and the backward walk answers Terminal at once (the
+    lengths need not be equal) -/
+theorem zip_bwdAs_of_empty (Is : List (Iterable α)) (ls : List (List α)) (hne : Is ≠ [])
+    (h : All₂ (fun I l => BwdAs I l) Is ls) (hemp : ∃ l ∈ ls, l = []) : BwdAs (zipI Is) (zipLists ls) := by
+  intro s
+  have hl : ¬ (Is.length = 0) := by
+    intro e; exact hne (List.length_eq_zero_iff.mp e)
+  rw [zipLists_nil_of_mem ls hemp]
+  apply Run.of_term
+  have := zipStep_last_term Is ls h hemp s.2
+  simp only [zipI, hl, if_false]
+  exact this
+
 /-- the sequence enumerate is defined to yield: the pairs `(i, x_i)` -/
 def enumSpec (inj : Int → α) (l : List α) : List (List α) :=
   zipLists [(List.range l.length).map (fun (j : Nat) => inj (j : Int)), l]
